@@ -25,6 +25,7 @@ CLAIMED = {
  "C17": ("2D Polygon.area == |shoelace|/2 and centroid == area centroid for n = 3,4 (area n = 5) with arbitrary vertex representatives, invariance under roll/reversal on the real function, Simplex.volume (|det|/2 in the plane, Cayley-Menger branch for a triangle in 3-space), Segment.length, polytope == under roll/flip/rescaling (quadrilateral); RegularPolygon read-backs, 3D polygon / cuboid areas, circumcenter, midpoint by a bounded lattice stand-in.", "4.17"),
  "C18": ("SegmentTensor.intersect(Segment) in 2D: exactly one point iff the lines are not parallel and both parameters lie in [0,1], the point is the crossing, [] otherwise (modular: Segment.contains replaced by its verified contract); intersect(Line): one point iff the line separates the end points; utils.distinct exhaustively over every (also non-transitive) equality relation on <= 5 elements; polygon / polyhedron intersections by a bounded lattice stand-in.", "4.18"),
  "C04": ("Relational contract f(X)[k] ~ f(X[k]) with fully symbolic coordinates at collection shape (2,) (shapes (1,), (3,), (2,2) thorough) for join / meet in 2D and 3D with every single/collection mix tried, the vectorised coplanar-lines branch (256 arg-max paths each for meet and join), contains, is_parallel, parallel, transformation apply (collection*collection, collection*single, single*collection, lines), quadric contains / tangent; integer indexing, slicing and iteration of Point/Line/Plane/Segment/Quadric/Transformation collections give the element class with attributes (is_dual, _line). Bounded in the collection shape.", "4.4"),
+ "C08": ("affine_transform / translation (coordinates or a Point with any representative) / scaling matrices and their action; rotation(t): counter-clockwise matrix, rotation(s)*rotation(t) == rotation(s+t), orthogonal with determinant 1 (trig leaf with addition formulas); rotation(t, axis) for EVERY axis direction: orthogonal, det 1, fixes the axis, trace 1 + 2cos t, additive about the same axis; reflection(line) for every finite line: equals the closed-form mirror image (hence agrees with h.mirror, C10), involution, fixes the mirror pointwise, reflection(infinity) = identity; Transformation.from_points in 2D maps each of the four source points to its target for all frames in general position. 3D reflection / from_points (QR / size) and from_points_and_conics are not covered.", "4.8"),
 }
 NA = {}
 def main():
